@@ -138,7 +138,11 @@ def conformance(chk):
     total, bad_all = 0, []
     for kname, spec in K.KERNELS.items():
         sp = {a: (d, dts, 'scalar') for a, d in spec['args'].items()}
-        cases, bad = compare(sc, getattr(real, kname), getattr(model, kname), sp, n, seed=chk.seed * 1000 + len(kname))
+        try:
+            cases, bad = compare(sc, getattr(real, kname), getattr(model, kname), sp, n, seed=chk.seed * 1000 + len(kname))
+        except core.Unsupported as e:    # the kernel (as edited) is outside the model: its section was demoted, nothing to conform
+            chk.extra.setdefault('conformance_skipped', []).append(f'{kname}: {str(e)[:120]}')
+            continue
         total += cases
         bad_all += [{'id': f'{kname}-{i}', 'kernel': kname, **b} for i, b in enumerate(bad[:3])]
     for kname, ename in (('energy_transfer_direct_from_tof', 'incident_energy'), ('energy_transfer_indirect_from_tof', 'final_energy')):
